@@ -107,7 +107,7 @@ func c15Program(r *explore.Run, p *prog) {
 		r.Skip("front end rejected/panicked (C08/C10)")
 		return
 	}
-	isAccess := strings.HasPrefix(c.Family, "F15acc")
+	isAccess := strings.HasPrefix(c.Family, "F15acc") || strings.HasPrefix(c.Family, "F15idx")
 	isConv := strings.Contains(p.Sig, "/conv/")
 	sc := p.Sig
 	if i := strings.Index(sc, "/idx="); i > 0 {
@@ -178,7 +178,7 @@ func c15Program(r *explore.Run, p *prog) {
 
 func runC15() int {
 	r := explore.New("C15")
-	fams := []*wgen.Family{wgen.F15Ops(), wgen.F15Access(), wgen.F15Zero()}
+	fams := []*wgen.Family{wgen.F15Ops(), wgen.F15Access(), wgen.F15Zero(), wgen.F15Idx()}
 	forEachProgram(r, fams, nil, func(p *prog) { c15Program(r, p) })
 	c := fams[1].At(9)
 	r.Sample(map[string]any{"access": c.Sig, "source": wgen.Print(c.Mod)})
